@@ -38,4 +38,5 @@ def run(ctx, replay=None):
         raise Infra("no cases exported")
     ctx.exhaustive = True
     path = ctx.write_ndjson("cases.ndjson", cases)
-    ctx.go_test("cctfe", run="TestRange$", env={"VERIF_CASES": path, "VERIF_MAXWORD": 7807}, timeout=3000)
+    # MaxWord of the configuration in use (2^63-1-MaxWord is divisible by lcm of the batch sizes = 3000 in both)
+    ctx.go_test("cctfe", run="TestRange$", env={"VERIF_CASES": path, "VERIF_MAXWORD": ctx.pick(7807, 22807)}, timeout=3000)
